@@ -311,6 +311,19 @@ type gen struct {
 	nopts   map[string]*op
 	wmsgs   []string
 	withNul bool
+	real    time.Time        // real clock when the run started
+	now     func() time.Time // virtual clock
+}
+
+// awayFromReal pushes an explicit time that would fall within 3 hours of the
+// real clock (as of the start of the run) 6 hours further into the past, so
+// that no comparison snapd makes against the real clock can flip during a run.
+func (g *gen) awayFromReal(offNs int64) int64 {
+	t := g.now().Add(time.Duration(offNs))
+	if d := t.Sub(g.real); d > -3*time.Hour && d < 3*time.Hour {
+		offNs -= int64(6 * time.Hour)
+	}
+	return offNs
 }
 
 func (g *gen) pick(n int) int { return g.rnd.Intn(n) }
@@ -626,7 +639,9 @@ func (g *gen) next(sides []*side) *op {
 				}
 				return &op{K: "remove-warning", AdvNs: lightAdv, Msg: g.wmsgs[g.pick(len(g.wmsgs))]}
 			case 1:
-				return &op{K: "okay-warnings", AdvNs: lightAdv, OffNs: -int64(g.pick(48*3600)) * int64(time.Second)}
+				// the virtual clock runs >= 24h ahead of the real one: the cut-off
+				// (and with it last-shown) stays >= 4h in the real future
+				return &op{K: "okay-warnings", AdvNs: lightAdv, OffNs: -int64(g.pick(20*3600)) * int64(time.Second)}
 			case 2:
 				return &op{K: "warnf", AdvNs: lightAdv, Msg: fmt.Sprintf("warnf %d", g.pick(3))}
 			}
@@ -640,7 +655,7 @@ func (g *gen) next(sides []*side) *op {
 			if g.pick(3) == 0 {
 				// at most 10 days old (expiry is 28 days, real clock)
 				o.HasTime = true
-				o.OffNs = -int64(g.pick(10*24*3600))*int64(time.Second) - int64(g.pick(1000000000))
+				o.OffNs = g.awayFromReal(-int64(g.pick(10*24*3600))*int64(time.Second) - int64(g.pick(1000000000)))
 			}
 			return o
 		case r < 94:
